@@ -75,6 +75,10 @@ func c08a(c *Ctx, r *Report, st *Staged) {
 		for _, fn := range shared {
 			gf, of := find(g, fn), find(o, fn)
 			construct := fmt.Sprintf("templates/%s/%s", packing, fn)
+			if gf == nil && of == nil {
+				r.OK(clause, "R10 SIBLING-DIFF", construct, "Builder/GoCodeTemplate.go ↔ Builder/GoObjectTemplate.go", "neither template declares "+fn+" (nothing to compare)")
+				continue
+			}
 			if gf == nil || of == nil {
 				r.Fail(clause, "R10 SIBLING-DIFF", construct, "Builder/GoCodeTemplate.go ↔ Builder/GoObjectTemplate.go", fmt.Sprintf("function %s exists in only one of the two templates (global: %v, object: %v)", fn, gf != nil, of != nil))
 				continue
